@@ -330,6 +330,17 @@ def _ext_cases(g):
                     sub[p] = s
                 yield {"kind": "ext", "geom": g, "clusters": [{"kind": kind, "sub": sub}], "slots": [1 if kind == B.N else None]}
     else:
+        # a compressed cluster (its sub-cluster bitmap is empty: it is compressed as a whole) next to standard ones, in both
+        # positions; requests start at every sub-cluster border inside it (see _case_ext)
+        for k0, k1 in ((B.C, B.N), (B.N, B.C), (B.C, B.U), (B.U, B.C), (B.C, B.C)):
+            for bg in ("a", "u") if B.N in (k0, k1) else ("u",):
+                for adj in ((1, 2), (2, 1)):
+                    subs = [["u"] * 32 if k == B.C else ([bg] * 29 + ["a", "z", "a"] if j == 0 else ["a", "u", "a"] + [bg] * 29)
+                            for j, k in enumerate((k0, k1))]
+                    if B.U in (k0, k1):
+                        subs = [[("u" if x == "a" else x) for x in sb] if k == B.U else sb for sb, k in zip(subs, (k0, k1))]
+                    yield {"kind": "ext", "geom": g, "clusters": [{"kind": k0, "sub": subs[0]}, {"kind": k1, "sub": subs[1]}],
+                           "slots": [adj[0] if k0 == B.N else None, adj[1] if k1 == B.N else None], "compressed": True}
         # two adjacent clusters: last three sub-clusters of the first, first three of the second
         for k0, k1 in ((B.N, B.N), (B.N, B.U), (B.U, B.N), (B.U, B.U)):
             a0 = "uaz" if k0 == B.N else "uz"
@@ -388,6 +399,10 @@ def _case_ext(case, ctx):
                 if k == 0 or c["sub"][k] != c["sub"][k - 1] or k in (1, 31):
                     interesting.add(ci * 32 + k)
         interesting |= {0, 32 * len(clusters)}
+        if case.get("compressed"):
+            for ci, c in enumerate(clusters):
+                if c["kind"] == B.C:
+                    interesting |= {ci * 32 + k for k in (2, 4, 5, 16, 30)}
         base = at * cs
         for s in sorted(interesting):
             for d in (-1, 0, 1):
